@@ -58,6 +58,9 @@ type CConn struct {
 	// Cmd: the command of this connection's requests, an index of cmdTable (0: Device-Watchdog of
 	// the base application, as before; others: a command that only a non-base application defines).
 	Cmd int `json:"cmd,omitempty"`
+	// Access: read-only accessors of diam.Conn that every handler of this connection calls before
+	// anything else (bit mask, see accNames in pipelined_test.go) - the handler that panics included.
+	Access int `json:"access,omitempty"`
 }
 
 type Step struct {
@@ -432,6 +435,9 @@ func runCase(c Case) *ev.Failure {
 	var connMu sync.Mutex
 	connOf := map[int]diam.Conn{}
 	mux.HandleFunc("ALL", func(conn diam.Conn, m *diam.Message) {
+		if ci, ok := u32(m, codeConn); ok && ci >= 0 && ci < nconn && c.Conns[ci].Access != 0 {
+			lookAt(conn, c.Conns[ci].Access)
+		}
 		if _, marked := u32(m, codeMarker); marked {
 			if ci, _ := u32(m, codeConn); ci%2 == 1 {
 				// a panic whose value is nil: with the semantics of the Go versions the library's
@@ -756,6 +762,9 @@ func genCase(t *rapid.T) Case {
 				}
 			}
 		}
+		if rapid.Bool().Draw(t, "handlers-call-accessors") {
+			cc.Access = rapid.SampledFrom([]int{accConnection, accAll &^ accCloseNotify, accLocalAddr | accRemoteAddr, accTLS | accDictionary | accContext}).Draw(t, "accessors")
+		}
 		c.Conns = append(c.Conns, cc)
 	}
 	anyHealthy := false
@@ -766,7 +775,7 @@ func genCase(t *rapid.T) Case {
 	}
 	if !anyHealthy {
 		i := rapid.IntRange(0, nc-1).Draw(t, "healthy")
-		c.Conns[i] = CConn{N: c.Conns[i].N, Cmd: c.Conns[i].Cmd}
+		c.Conns[i] = CConn{N: c.Conns[i].N, Cmd: c.Conns[i].Cmd, Access: c.Conns[i].Access}
 	}
 	ns := rapid.IntRange(6, 48).Draw(t, "steps")
 	errs := 0
@@ -840,6 +849,12 @@ func classify(c Case) (bool, []string) {
 		if cc.CloseNotify && cc.Fault != "" && cc.At >= 2 {
 			add("fault-with-closenotify-active:" + cc.Fault)
 		}
+		if cc.Access != 0 && (cc.At >= 1 || cc.Fault == "panic") {
+			add("fault-after-handlers-called-accessors:" + cc.Fault)
+			if cc.Access&accConnection != 0 {
+				add("fault-after-handlers-called-Connection():" + cc.Fault)
+			}
+		}
 		if cc.StuckWrite && (cc.Fault == "panic" || cc.Fault == "garbage") && cc.At >= 1 {
 			add("fault-while-a-write-is-stuck:" + cc.Fault)
 		}
@@ -892,7 +907,7 @@ func classify(c Case) (bool, []string) {
 
 var prop = ev.Register(&ev.Prop[Case]{
 	ID: "C15", Name: "isolation",
-	Rule: "Server.Serve on a memnet.Listener; 2..5 connections with 1..6 numbered requests (1 in 3 connections: the first handler requests CloseNotify); faults: a marked request whose handler panics (with a string, or - on odd-numbered connections - with a nil value under GODEBUG panicnil=1), undecodable bytes (9 variants, two of them complete messages with a malformed member inside a grouped AVP), either of them optionally while a server-side Write of another goroutine is stuck in that connection's transport, EOF / reset at a message boundary or inside a message, at position 0..N of the connection's sequence; 0..3 temporary accept errors (4 kinds: memnet's, a timeout, net.OpError with EMFILE / ECONNABORTED), in 1 case of 3 on a listener whose Addr() is nil; in half of the cases part of the connections and the late connection send a command that only a non-base application defines (CCR, Gx CCR, ULR, AAR, MAR, AIR) and the undecodable input is then often a header carrying that command code under an application that does not define it (variants 7, 8); in 1 case of 4 the server has a dictionary parser of its own instead of dict.Default; a scripted global interleaving of open / feed actions, each optionally awaited (answer received / faulty transport closed) before the script continues; at the end every healthy connection must hold the answer to each of its requests, every faulty transport must be closed, undecodable input must have been offered to the ErrorReporter with that connection, a connection opened afterwards must be served and Serve must neither have returned nor panicked; non-trivial = a fault (or accept error) is scripted between two requests of a healthy connection",
+	Rule: "Server.Serve on a memnet.Listener; 2..5 connections with 1..6 numbered requests (1 in 3 connections: the first handler requests CloseNotify; 1 in 2: every handler first calls read-only accessors of diam.Conn - Connection, or LocalAddr/RemoteAddr, or TLS/Dictionary/Context, or all of them); faults: a marked request whose handler panics (with a string, or - on odd-numbered connections - with a nil value under GODEBUG panicnil=1), undecodable bytes (9 variants, two of them complete messages with a malformed member inside a grouped AVP), either of them optionally while a server-side Write of another goroutine is stuck in that connection's transport, EOF / reset at a message boundary or inside a message, at position 0..N of the connection's sequence; 0..3 temporary accept errors (4 kinds: memnet's, a timeout, net.OpError with EMFILE / ECONNABORTED), in 1 case of 3 on a listener whose Addr() is nil; in half of the cases part of the connections and the late connection send a command that only a non-base application defines (CCR, Gx CCR, ULR, AAR, MAR, AIR) and the undecodable input is then often a header carrying that command code under an application that does not define it (variants 7, 8); in 1 case of 4 the server has a dictionary parser of its own instead of dict.Default; a scripted global interleaving of open / feed actions, each optionally awaited (answer received / faulty transport closed) before the script continues; at the end every healthy connection must hold the answer to each of its requests, every faulty transport must be closed, undecodable input must have been offered to the ErrorReporter with that connection, a connection opened afterwards must be served and Serve must neither have returned nor panicked; non-trivial = a fault (or accept error) is scripted between two requests of a healthy connection",
 	Gen:  genCase, Run: runCase, Classify: classify, Attempts: 5,
 })
 
